@@ -28,6 +28,7 @@ Ret(w) == N("ret", "", w, 0, "", 0, "", <<>>, <<>>, <<>>)
 Throw == N("throw", "", "", 0, "", 0, "", <<>>, <<>>, <<>>)
 Try(b, b2) == N("try", "", "", 0, "", 0, "", b, b2, <<>>)
 Ifnz(w, b) == N("ifnz", "", w, 0, "", 0, "", b, <<>>, <<>>)
+Rep(v, c, b) == N("rep", v, "", c, "", 0, "", b, <<>>, <<>>)
 Obs(vs) == N("obs", "", "", 0, "", 0, "", <<>>, <<>>, vs)
 
 \* call with the right number of arguments for a block whose parameter is a
@@ -81,10 +82,22 @@ F4Prog(c) ==
        (IF w = 1 THEN <<Try(callf, <<Const("z", 9)>>)>> ELSE callf) \o
        <<Obs(IF o = 1 THEN <<"x", "y">> ELSE <<"x">>)>>
 
+\* F5: blocks created in a loop: all of them share the cells of the one invocation of F
+\*     (including the loop variable)
+F5 == {<<b, r, cl, o>> \in SeqsUpTo(Simple({"x", "t"}, {"x", "t", "i"}), BodyLen) \X {"x", "t", "i"} \X {0, 1, 2} \X {0, 1} : TRUE}
+F5Prog(c) ==
+    LET b == c[1] r == c[2] cl == c[3] o == c[4]
+        inloop == CASE cl = 0 -> <<>>
+                    [] cl = 1 -> <<Call0("y", "f")>>
+                    [] cl = 2 -> <<Ifnz("i", <<Copy("g", "f")>>)>>
+    IN <<Const("x", 0), Const("y", 0), Rep("i", 2, <<Blk("f", "", 1, b, r)>> \o inloop),
+         Call0("z", "f"), Obs(IF o = 1 THEN <<"x", "y", "z", "i">> ELSE <<"y", "z", "f">>)>>
+
 Progs == (IF 1 \in Family THEN {F1Prog(c) : c \in F1} ELSE {}) \cup
          (IF 2 \in Family THEN {F2Prog(c) : c \in F2} ELSE {}) \cup
          (IF 3 \in Family THEN {F3Prog(c) : c \in F3} ELSE {}) \cup
-         (IF 4 \in Family THEN {F4Prog(c) : c \in F4} ELSE {})
+         (IF 4 \in Family THEN {F4Prog(c) : c \in F4} ELSE {}) \cup
+         (IF 5 \in Family THEN {F5Prog(c) : c \in F5} ELSE {})
 
 MCInit == prog \in Progs
 MCNext == UNCHANGED prog
